@@ -562,8 +562,9 @@ package restful
 //@ nopanic
 //@ modifies nothing
 
+// (C15: every request starts with a Response of its own that records status 200 and length 0)
 //@ func (*Route).wrapRequestResponse
-//@ props C01 C04 C05 C06 C19
+//@ props C01 C04 C05 C06 C15 C19
 //@ requires r != nil && httpRequest != nil
 //@ ensures req: result0 != nil && fresh(result0) && result0.Request == httpRequest && result0.selectedRoute == r && same(result0.pathParameters, pathParams)
 //@ ensures resp: result1 != nil && fresh(result1) && result1.ResponseWriter == httpWriter && same(result1.routeProduces, r.Produces) && result1.requestAccept == httpRequest.Header.Get("Accept")
